@@ -60,7 +60,16 @@ def roles(tu):
 
 def members(tu, lo, hi, c):
     r = roles(tu)
-    return {r[F_MIN]: lo, r[F_MAX]: hi, r[F_CNT]: c}
+    out = {r[F_MIN]: lo, r[F_MAX]: hi, r[F_CNT]: c}
+    # an aggregate member that groups some of them reads as the tuple of its leaves (declaration order)
+    for cl in tu.cls_by_qe.get(HB, [])[:1]:
+        for fld in cl.get("fields", ()):
+            tq = erase(fld["t"].replace("const ", "").strip())
+            if tq in tu.cls_by_qe:
+                sub = _leaves(tu, tq)
+                if sub and all(x in out for x in sub):
+                    out[erase(fld["q"])] = tuple(out[x] for x in sub)
+    return out
 
 
 def role_stores(tu, effects):
@@ -118,9 +127,16 @@ def c03b_carry(ctx, tu):
     n = 0
     SS = "trompeloeil::call_matcher::set_sequence"
     H = "trompeloeil::sequence_handler"
-    for fn in tu.find(SS):
-        if not fn.has_body:
-            continue
+    # the creation site: set_sequence - or whichever member of the expectation / its modifier the helper was folded
+    # into (the destruction requirement's own handler always has the default limits and is not of interest here)
+    sites = [f for f in tu.find(SS) if f.has_body]
+    if not sites:
+        for f in tu.fns.values():
+            if f.has_body and f.is_lib and (f.qe.startswith("trompeloeil::call_matcher::") or f.qe.startswith("trompeloeil::call_modifier::")) \
+                    and any(e["e"] in ("call", "new") and re.search(r"(make_unique<|^)trompeloeil::sequence_handler<[1-9]", (e.get("q") or e.get("type") or ""))
+                            for b, e in f.events()):
+                sites.append(f)
+    for fn in sites:
         mk = [e for b, e in fn.events() if e["e"] in ("call", "new", "ctor") and
               re.search(r"(make_unique<|^)trompeloeil::sequence_handler<(\d+)>", (e.get("q") or e.get("type") or ""))]
         mk = [e for e in mk if not (e["e"] == "ctor" and e.get("q", "").startswith("std::"))]
@@ -210,7 +226,16 @@ def assign_calls(tu):
             tq = erase(fld["t"].replace("const ", "").strip())
             if tq in tu.cls_by_qe:
                 out[tq + "::operator="] = agg_assign
+                out["ctor " + tq] = agg_ctor
     return out
+
+
+def agg_ctor(t, it):
+    """construction of such an aggregate: a copy is the source's value, {a, b} the tuple of its members"""
+    a = t[3]
+    if len(a) == 1:
+        return it.ev(a[0])
+    return tuple(it.ev(x) for x in a)
 
 
 def stores(effects):
@@ -299,7 +324,7 @@ def c03b(ctx, tu):
         hi = int(m.group(2)) if m.group(2) else lo
         # what the clause stores into the handler (through set_limits, or whatever the setter is split into)
         try:
-            o = Oracle(any_call=True, any_member=True, any_param=True).descend_into(tu, depth=4)
+            o = Oracle(calls=assign_calls(tu), any_call=True, any_member=True, any_param=True).descend_into(tu, depth=4)
             it = Interp(fn, o)
             it.run(max_steps=2000)
             st = role_stores(tu, it.effects)
